@@ -122,6 +122,16 @@ CLAIMED["C13"] = (
     "With a real worker pool evaluations happen in other processes; the count is then compared with the verified in-process twin.",
     "DESIGN.md §2 C13",
 )
+CLAIMED["C17"] = (
+    "exploration",
+    "model-based stateful property testing (Hypothesis-generated operation sequences, shrunk as one value) of StateManager against a pure-Python model, and of a real Sampler against an untouched twin; every returned array is overwritten by the harness",
+    "Operation sequences over the whole public StateManager API are generated; every array any operation returns is overwritten at once; after "
+    "every step all public reads are compared bit for bit with a pure-Python model (current state, every committed batch, history lengths), so "
+    "aliasing and any change to an earlier batch are caught at the step where they happen. A second machine drives a real Sampler "
+    "(sample/posterior/results/to_dict/getters/evidence) against a twin whose outputs are left alone.",
+    "copy=False hands ownership to the state by contract and dictionaries passed to from_dict/update_from_dict are user input; neither is scribbled on.",
+    "DESIGN.md §2 C17",
+)
 
 ALL = [f"C{i:02d}" for i in range(1, 21)]
 
